@@ -52,6 +52,8 @@ QuickPick(b) == {b, [b EXCEPT !.scheme = "https"], [b EXCEPT !.host = <<"static"
                  [b EXCEPT !.hdrs = <<H("X-K", "match_regex", "k-@m")>>], [b EXCEPT !.hdrs = <<H("X-K", "match_regex", "K-@m")>>],
                  [b EXCEPT !.hdrs = <<H("X-J", "is_defined", ""), H("X-K", "is_defined", "")>>], [b EXCEPT !.hdrs = <<H("X-K", "is_defined", "")>>],
                  [b EXCEPT !.dates = <<W1>>], [b EXCEPT !.times = <<TW>>, !.wds = <<"Mon">>],
+                 \* a weekday list that is a prefix of another one, next to the same time window
+                 [b EXCEPT !.times = <<TW>>, !.wds = <<"Mon", "Tue">>],
                  \* two date groups that share their last condition (the weekday) and differ by an earlier one
                  [b EXCEPT !.dates = <<W1>>, !.wds = <<"Sun">>], [b EXCEPT !.dates = <<W2>>, !.wds = <<"Sun">>],
                  [b EXCEPT !.path = <<"static", "/A">>], [b EXCEPT !.path = <<"dyn", "/x/@m">>], [b EXCEPT !.path = <<"dyn", "/x/@m/y">>],
@@ -77,7 +79,11 @@ PoolPaths2 == { [Base("r1") EXCEPT !.hdrs = <<H("X-K", "is_defined", "")>>],
 PoolOrders == { [Base("r1") EXCEPT !.path = <<"dyn", "/x/@m">>], [Base("r2") EXCEPT !.path = <<"dyn", "/x/@m/y">>],
                 [Base("r3") EXCEPT !.path = <<"dyn", "/X/@m">>], [Base("r4") EXCEPT !.path = <<"dyn", "/X/y/@m">>],
                 [Base("r2") EXCEPT !.host = <<"dyn", "@sub.example.com">>],
-                [Base("r3") EXCEPT !.host = <<"dyn", "@sub.example.com">>, !.path = <<"dyn", "/x/@m">>] }
+                [Base("r3") EXCEPT !.host = <<"dyn", "@sub.example.com">>, !.path = <<"dyn", "/x/@m">>],
+                \* condition groups whose keys are prefixes of one another; nested networks (several buckets accept one address)
+                [Base("r1") EXCEPT !.times = <<TW>>, !.wds = <<"Mon">>], [Base("r4") EXCEPT !.times = <<TW>>, !.wds = <<"Mon", "Tue">>],
+                [Base("r2") EXCEPT !.ips = <<<<"in", "10.0.0.0/8">>>>], [Base("r3") EXCEPT !.ips = <<<<"in", "10.1.0.0/16">>>>],
+                [Base("r4") EXCEPT !.ips = <<<<"not_in", "10.1.0.0/16">>>>] }
 PoolHistQ == { Base("r1"), [Base("r1") EXCEPT !.path = <<"dyn", "/X/@m">>], [Base("r1") EXCEPT !.path = <<"dyn", "/X/@n">>],
                [Base("r2") EXCEPT !.path = <<"dyn", "/X/@m/y">>], [Base("r2") EXCEPT !.host = <<"dyn", "@sub.example.com">>],
                [Base("r3") EXCEPT !.host = <<"static", "example.com">>, !.ips = <<<<"in", "10.0.0.0/8">>, <<"not_in", "10.1.0.0/16">>>>],
@@ -101,7 +107,7 @@ Universe == [ scheme |-> <<"http", "https", "", "HTTPS">>,     \* schemes are co
                           <<HL("X-K", "w")>>, <<HL("X-K", "w"), HL("x-k", "v")>>, <<HL("X-J", "v")>>, <<HL("X-K", "v"), HL("X-J", "v")>>,
                           <<HL("X-K", "k-ab")>>, <<HL("x-k", "K-AB")>>, <<HL("X-K", "xk-ab9")>>, <<HL("X-K", "K-ab")>> >>,
               at |-> <<"2024-03-10T12:30:00Z", "2024-03-10T11:59:59.750Z", "2024-03-10T12:00:00Z", "2024-03-10T12:59:59.750Z", "2024-03-10T13:00:00Z",
-                       "2024-03-10T23:59:59.750Z", "2024-03-11T00:00:00Z", "2024-03-11T12:30:00Z", "">>,
+                       "2024-03-10T23:59:59.750Z", "2024-03-11T00:00:00Z", "2024-03-11T12:30:00Z", "2024-03-12T12:30:00Z", "">>,
               path |-> <<"/a", "/x/ab", "/b", "/A", "/x/AB", "/x/ab/y", "/x/", "/X/ab", "/X/ab/y", "/X/y/ab", "/x/y/ab">> ]
 
 PoolSeq == SetToSeq(Pool)
